@@ -2,10 +2,11 @@
 C20 — reference semantics of the cron alarm (core Lean only).
 
 CronAlarm::calculateNextLocalTimeSec delegates to the THIRD-PARTY evaluator
-modules/alarm/3rd-party/ccronexpr.cpp (`cron_parse_expr`, `cron_next`).  That code is not
-modelled.  This file is an independent executable reference for the expression shapes
-`sec min hour dom mon dow` built from lists, ranges, steps and `*`; the harness compares
-`cron_next` with it on every run (correspondence only — level "partial").
+modules/alarm/3rd-party/ccronexpr.cpp (`cron_parse_expr`, `cron_next`).  That code is transcribed
+in CCron.lean.  THIS file is an independent executable reference (declarative meaning + a search
+proved to return the earliest match) for the expression shapes `sec min hour dom mon dow` built
+from lists, ranges, steps and `*`; the driver compares both `cron_next` of the real code and the
+transcription with it on every run.
 
 Field semantics transcribed from ccronexpr's parser (`set_number_hits` / `get_range`):
   item   := range | range '/' step
